@@ -164,23 +164,6 @@ theorem rebroadcast_frame (s : AState) (a : Acct) (r : Bool) (acts : List String
     · cases a.latestTx <;> first | exact ⟨rfl, rfl, rfl⟩ | exact mb_frame _ _
     · exact ⟨rfl, rfl, rfl⟩
 
-/-- whenever the `resumeAccount` clause of a (funded) state succeeds, the account is watched for what its
-state waits for – whatever the registry looked like before (restart: empty; watch-matched: cancelled) -/
-theorem resumeRest_inv2 (s : AState) (a : Acct) (r : Bool) (ha : s.acct = some a)
-    (hok : (resumeRest s a r).2 = .ok) : Inv2 (resumeRest s a r).1 := by
-  unfold resumeRest at hok ⊢
-  split at hok
-  · simp at hok
-  · rename_i acts hacts
-    simp only [hacts] at hok ⊢
-    split
-    · rename_i hrb
-      have hf := rebroadcast_frame s a r acts
-      exact watchers_inv2 _ a acts (hf.1.trans ha) hacts
-    · rename_i hrb
-      simp only [hrb, if_false] at hok
-      first | exact absurd hok hrb | skip
-
 theorem initiated_fallthrough :
     (match resumeActs .initiated with | some acts => acts.contains "fallthrough" | none => false) = true := by
   decide
@@ -196,40 +179,5 @@ theorem fundOrLocate_key {s s' : AState} {a : Acct} {r1 r2 fee : Bool} {f : Opti
   · repeat' split at h
     all_goals (try (simp at h))
     rw [← h.1]
-
-/-- `resumeAccount`: whenever it succeeds the stored account is adequately watched -/
-theorem resume_inv2 (s : AState) (a : Acct) (r1 r2 fee : Bool) (f : Option (Nat × Nat))
-    (ha : a.state ≠ .initiated → s.acct = some a)
-    (hok : (resume s a r1 r2 fee f).2 = .ok) : Inv2 (resume s a r1 r2 fee f).1 := by
-  unfold resume at hok ⊢
-  split
-  · rename_i hinit
-    simp only [hinit, if_true] at hok
-    have hft := initiated_fallthrough
-    split
-    · rename_i hn; simp only [hn] at hok; simp at hok
-    · rename_i acts hacts
-      simp only [hacts] at hok hft
-      split
-      · rename_i r hr; simp only [hr] at hok
-        -- a failed funding: the result is not ok only if r ≠ ok; r is never ok
-        unfold fundOrLocate at hr
-        simp only [] at hr
-        repeat' split at hr
-        all_goals (simp at hr)
-        all_goals (subst hr; simp at hok)
-      · rename_i hc; simp only [hc] at hok; simp at hok
-      · rename_i s' t hg
-        simp only [hg] at hok
-        split
-        · rename_i hl; simp only [hl] at hok; simp at hok
-        · rename_i idx hl
-          simp only [hl, hft, if_true] at hok ⊢
-          apply resumeRest_inv2 _ _ _ _ hok
-          show some (Acct.stored _) = _
-          rw [stored_of_live] <;> simp
-  · rename_i hinit
-    simp only [hinit, if_false] at hok
-    exact resumeRest_inv2 s a r1 (ha hinit) hok
 
 end Pool.C08
